@@ -17,6 +17,10 @@ package strategy
 //@ ensures[C03] consumed(p0) == len(p0) && closed(result)
 //@ ensures[C04] forall k :: 0 <= k && k < len(result) && k < len(p0) ==> hor(result, k) <= hor(p0, k)
 
+// C18: the second run sees every price of the first multiplied by lam (volumes, dates unchanged) / every volume by mu
+//@ macro pscaled(s2, s1, lam) = s2.Close == lam * s1.Close && s2.Open == lam * s1.Open && s2.High == lam * s1.High && s2.Low == lam * s1.Low && s2.Volume == s1.Volume && s2.Date == s1.Date
+//@ macro vscaled(s2, s1, mu) = s2.Close == s1.Close && s2.Open == s1.Open && s2.High == s1.High && s2.Low == s1.Low && s2.Volume == mu * s1.Volume && s2.Date == s1.Date
+
 //@ func NormalizeActions
 //@ requires consumed(ac) == 0 && (forall k :: 0 <= k && k < len(ac) ==> 0 - 1 <= ac[k] && ac[k] <= 1)
 //@ ensures[C08,C14] len(result) == len(ac)
